@@ -919,7 +919,14 @@ def regenerate(isas=ISAS, repo=None, log=None):
     os.makedirs(GEN_DIR, exist_ok=True)
     reports = {}
     for isa in isas:
-        txt, rep = translate(isa, repo)
+        try:
+            txt, rep = translate(isa, repo)
+        except Exception as e:
+            # e.g. the headers do not preprocess: keep the previous file, never take a check down
+            reports[isa] = {"isa": isa, "translated": [], "untranslated": [], "metas": [], "changed": False, "error": "%s: %s" % (type(e).__name__, str(e)[:400]),
+                            "path": os.path.join(GEN_DIR, "Simd_%s.lean" % isa)}
+            if log is not None: log.append("xlate %s: FAILED (%s), previous file kept" % (isa, reports[isa]["error"][:120]))
+            continue
         p = os.path.join(GEN_DIR, "Simd_%s.lean" % isa)
         old = open(p).read() if os.path.exists(p) else None
         rep["changed"] = (old != txt)
